@@ -13,7 +13,7 @@ from mc import kernel, simenv
 ID = "C17"
 LEVEL = "model_checking"
 EXHAUSTIVE = True
-RULE = ("closure of each producer's alphabet: sync {start(0.1), start(0.2), start(), stop()}; pdo map {start(0.1), "
+RULE = ("closure of each producer's alphabet: sync {start(0.1), start(0.2), start(0.1004), start(), stop()}; pdo map {start(0.1), start(0.1004), "
         "start(0.5), start(), stop(), set variable 0/7, update()}; heartbeat {nmt.state = 5 names, NMT command frames "
         "1/2/128/129, write 0x1017 in {0,100,250} via SDO frame and via local.sdo}; node guarding {start(0.1), start(0.3), "
         "stop()}; x task flavour {modify_data, no modify_data}; combined depth-bounded harness with disconnect(). Invariant "
@@ -88,7 +88,7 @@ class Base:
 
 
 class Sync(Base):
-    EVENTS = [("start", 0.1), ("start", 0.2), ("start", None), ("stop",)]
+    EVENTS = [("start", 0.1), ("start", 0.2), ("start", 0.1004), ("start", None), ("stop",)]
 
     def __init__(self):
         super().__init__()
@@ -119,7 +119,7 @@ class Sync(Base):
 
 
 class Pdo(Base):
-    EVENTS = [("start", 0.1), ("start", 0.5), ("start", None), ("stop",), ("set", 0), ("set", 7), ("update",)]
+    EVENTS = [("start", 0.1), ("start", 0.5), ("start", 0.1004), ("start", None), ("stop",), ("set", 0), ("set", 7), ("update",)]
 
     def __init__(self):
         import canopen
@@ -204,7 +204,7 @@ class Heartbeat(Base):
 
 class Guarding(Base):
     # (canon below also records hidden scalars of the NMT master object)
-    EVENTS = [("start", 0.1), ("start", 0.3), ("stop",)]
+    EVENTS = [("start", 0.1), ("start", 0.3), ("start", 0.1004), ("stop",)]
 
     def __init__(self):
         import canopen
